@@ -937,7 +937,17 @@ impl Join {
         let max = if left || right {
             left_size_max.max(right_size_max)
         } else {
-            left_size_max.saturating_mul(right_size_max)
+            // Outer joins keep the unmatched rows of the preserved side(s),
+            // this may exceed the product when the other side is (almost) empty
+            let product = left_size_max.saturating_mul(right_size_max);
+            match operator {
+                JoinOperator::LeftOuter(_) => product.max(left_size_max),
+                JoinOperator::RightOuter(_) => product.max(right_size_max),
+                JoinOperator::FullOuter(_) => {
+                    product.max(left_size_max.saturating_add(right_size_max))
+                }
+                JoinOperator::Inner(_) | JoinOperator::Cross => product,
+            }
         };
         Integer::from_interval(0, max)
     }
